@@ -52,6 +52,7 @@ func sharingSuite(r *Run) {
 			var mu sync.Mutex
 			var handlerGot []*Msg  // request objects as the handler received them
 			var handlerSent []*Msg // response objects the handler handed to the library
+			var handlerSentSnap []string
 			reqSnap := map[*Msg]string{}
 			svr := &scriptServer{}
 			keep := func(m *Msg) {
@@ -64,6 +65,7 @@ func sharingSuite(r *Run) {
 				m := populateMsg(rng)
 				mu.Lock()
 				handlerSent = append(handlerSent, m)
+				handlerSentSnap = append(handlerSentSnap, snapOf(m))
 				mu.Unlock()
 				return m
 			}
@@ -82,9 +84,11 @@ func sharingSuite(r *Run) {
 			svr.sstream = func(req *Msg, s grpchantesting.TestService_ServerStreamServer) error {
 				keep(req)
 				for i := 0; i < nResp; i++ {
-					if err := s.Send(mkResp()); err != nil {
+					m := mkResp()
+					if err := s.Send(m); err != nil {
 						return err
 					}
+					mutateMsg(m) // the handler re-uses its message right after Send returned
 				}
 				return nil
 			}
@@ -95,9 +99,11 @@ func sharingSuite(r *Run) {
 						break
 					}
 					keep(m)
-					if err := s.Send(mkResp()); err != nil {
+					r := mkResp()
+					if err := s.Send(r); err != nil {
 						return err
 					}
+					mutateMsg(r)
 				}
 				return nil
 			}
@@ -221,8 +227,8 @@ func sharingSuite(r *Run) {
 				if sh := sharedMemory(handlerSent[i], clientGot[i]); len(sh) > 0 {
 					r.Violate("inproc/sharing/"+cfg.name+"/response-shares-memory", "the response a caller receives shares no mutable memory with the handler's object", sprintf("%s response %d: shared at %v", kind, i, sh), desc, strings.Join(sh, ","))
 				}
-				if snapOf(clientGot[i]) != snapOf(handlerSent[i]) {
-					r.Violate("inproc/sharing/"+cfg.name+"/destination-merged", "a destination message passed to a receive is overwritten, never merged with its previous content", sprintf("%s response %d: the pre-filled destination differs from the message sent", kind, i), desc, "")
+				if snapOf(clientGot[i]) != handlerSentSnap[i] {
+					r.Violate("inproc/sharing/"+cfg.name+"/response-differs-from-sent", "a destination message passed to a receive is overwritten, never merged with its previous content; mutating or reusing a message on one side after handing it to the library is never visible on the other side", sprintf("%s response %d: what the client received (into a pre-filled destination) differs from the message as it was when the handler sent it", kind, i), desc, "")
 				}
 			}
 			mu.Unlock()
